@@ -1,6 +1,8 @@
 import OmbottModel.Model.RouterSpec
 import OmbottModel.Lemmas.RouterDispatch
 import OmbottModel.Props.C01
+import OmbottModel.Lemmas.AppError
+import OmbottModel.Lemmas.AppRoute
 /-!
 C02 — Method dispatch: verb, ANY and HEAD fallbacks, 405 with exact Allow.
 Property theorems only; helper lemmas live in `Lemmas/Router*.lean`.
@@ -225,6 +227,189 @@ theorem case_insensitive (upper : Str → Str) :
     rw [h]
 
 
+/-! ## the composed application (`Model/App.lean`): 404 / 405 / dispatch through `Ombott.__call__` -/
+
+theorem jsonPage_text_isSome (t : Str) : (Wsgi.jsonPage (.text t)).isSome = true := rfl
+
+/-- **`app_404_405_split`: the 404 / 405 split and the exact `Allow`, end to end through
+`App.serve`.**  For every application whose hooks do not fail (they may set headers, cookies,
+statuses), every registration history and every request with a decodable path on which
+`App.serve` is defined, the response `Ombott.__call__` gives is decided by the plain rule-by-rule
+matcher over the registered rules and the method table of the selected route:
+* no registered rule matches the path — no handler runs and (without a custom 404 handler) the
+  status line handed to `start_response` is the 404 line;
+* a rule matches and one of `[upper verb, GET if HEAD, ANY]` is registered on its route — the
+  handler event occurs and the call is that method's callback with that rule's kwargs;
+* a rule matches and none is registered — no handler runs and (without a custom 405 handler) the
+  status line is the 405 line and the header list handed to `start_response` contains `Allow` with
+  the comma-joined `sorted` names registered on that route (duplicate-free: `allow_names`), as
+  `headerlist` transcodes it.
+So 404 is never answered for a path that matches a rule nor 405 for one that matches none, after
+the whole way through `_handle`, `_cast`, `apply` and `headerlist`. -/
+theorem app_404_405_split (cfg : App.AppConfig) (ops : List Op) (hok : ∀ op ∈ ops, OpOK op)
+    (hs : NoSel cfg.fenv) (q : App.Req) (res : Wsgi.Result)
+    (hserve : App.serveW cfg (Router.run cfg.upper ops) q = .ok res)
+    (path : Str) (hpath : ErrorPage.utf8Decode q.rawPath = some path)
+    (hb : cfg.hooks.before.all (fun h => !h.fails) = true)
+    (ha : cfg.hooks.after.all (fun h => !h.fails) = true) :
+    match specResolve cfg.fenv (Router.run cfg.upper ops).rules (stripSlash path) with
+    | none =>
+      Wsgi.Event.handler ∉ res.events ∧
+      (Wsgi.errHandlerFor cfg.hooks 404 = none →
+        res.slots.resp.code = 404 ∧
+        ∃ hdrs, Wsgi.Event.startResponse (Wsgi.lineOfCode 404) hdrs false ∈ res.events)
+    | some (rule, vs) => ∃ route,
+        (Router.run cfg.upper ops).obj? rule.data = some route ∧ (route.methods.map (·.1)).Nodup ∧
+        match dispatchSpec route (cfg.upper q.verb) with
+        | some m =>
+          Wsgi.Event.handler ∈ res.events ∧
+          App.callOf (App.resolved cfg (Router.run cfg.upper ops) q) =
+            some ⟨m.handler, m.name, makeParamsDict (if m.params.isEmpty then rule.keys else m.params) vs⟩
+        | none =>
+          Wsgi.Event.handler ∉ res.events ∧
+          (Wsgi.errHandlerFor cfg.hooks 405 = none →
+            res.slots.resp.code = 405 ∧
+            ∃ hdrs, Wsgi.Event.startResponse (Wsgi.lineOfCode 405) hdrs false ∈ res.events ∧
+              ("Allow".toList, transcode (joinComma (sortStrs (route.methods.map (·.1))))) ∈ hdrs) := by
+  obtain ⟨r, hr, rfl⟩ := App.serveW_ok hserve
+  obtain ⟨_, _, _, _, _, hpok, _, _, hjson, hrel⟩ := App.wsgiReq_ok hr
+  have hp : r.pathOK = true := by rw [hpok, hpath]; rfl
+  have hres : App.resolved cfg (Router.run cfg.upper ops) q =
+      some ((Router.run cfg.upper ops).handle cfg.upper cfg.fenv q.verb path) := by
+    unfold App.resolved; rw [hpath]; rfl
+  rw [hres] at hrel
+  have hnot : r.route.isFound = false → Wsgi.Event.handler ∉ (Wsgi.wsgi cfg.hooks Wsgi.Slots.fresh r).events := by
+    intro hnf hmem
+    have := (App.handler_event_found cfg.hooks Wsgi.Slots.fresh r (List.mem_append_left _ hmem)).2
+    rw [hnf] at this; cases this
+  have hflow := App.handleFlow_quiet cfg.hooks r hb ha
+  have hist := histories cfg.upper ops hok cfg.fenv hs q.verb path
+  generalize hrt : r.route = route at hrel
+  cases hsr : specResolve cfg.fenv (Router.run cfg.upper ops).rules (stripSlash path) with
+  | none =>
+    rw [hsr] at hist
+    obtain ⟨v, hh, p, hnf⟩ := hist
+    rw [hnf] at hrel
+    cases hrel
+    refine ⟨hnot (by rw [hrt]; rfl), ?_⟩
+    intro hno
+    rw [hrt, App.notFound_flow] at hflow
+    obtain ⟨x, hl, hserved⟩ := App.wsgi_error_page cfg.hooks Wsgi.Slots.fresh r hp _ _ hflow hno
+      (by intro p hp; cases hp) (fun _ => jsonPage_text_isSome _)
+    exact ⟨hserved.code, hl, by rw [hserved.evs]; simp⟩
+  | some x =>
+    obtain ⟨rule, vs⟩ := x
+    rw [hsr] at hist
+    obtain ⟨rt, hooks, hobj, _, hnd, hhandle⟩ := hist
+    refine ⟨rt, hobj, hnd, ?_⟩
+    cases hd : dispatchSpec rt (cfg.upper q.verb) with
+    | some m =>
+      rw [hd] at hhandle
+      simp only at hhandle ⊢
+      rw [hhandle] at hrel hres
+      cases hrel
+      refine ⟨App.handler_event_of_found cfg.hooks Wsgi.Slots.fresh r hp hb (by rw [hrt]; rfl), ?_⟩
+      rw [hres]
+      rfl
+    | none =>
+      rw [hd] at hhandle
+      simp only at hhandle ⊢
+      rw [hhandle] at hrel
+      cases hrel
+      refine ⟨hnot (by rw [hrt]; rfl), ?_⟩
+      intro hno
+      rw [hrt, App.notAllowed_flow] at hflow
+      obtain ⟨x, hl, hserved⟩ := App.wsgi_error_page cfg.hooks Wsgi.Slots.fresh r hp _ _ hflow hno
+        (by
+          intro p hp v hv
+          simp only [List.mem_singleton] at hp
+          subst hp
+          simp only [List.mem_singleton] at hv
+          subst hv
+          exact fun h => by cases h)
+        (fun _ => jsonPage_text_isSome _)
+      refine ⟨hserved.code, hl, by rw [hserved.evs]; simp, ?_⟩
+      exact hserved.kept "Allow".toList _ (by simp) (by decide) App.allow_kept
+
+/-- an application that adds nothing of its own: no hooks, no error handlers, callbacks that
+return text without touching the response object (what the registration API gives by default) -/
+def Transparent (cfg : App.AppConfig) : Prop :=
+  cfg.hooks.before = [] ∧ cfg.hooks.after = [] ∧ cfg.hooks.errHandlers = [] ∧
+  ∀ id kw, (cfg.handlers id kw).effs = [] ∧ ∃ t, (cfg.handlers id kw).res = .returns (.text t)
+
+/-- **`app_404_405_split`, as an equivalence on the status code.**  For a transparent application
+the status code `Ombott.__call__` answers with is 404 exactly when no registered rule matches the
+path, 405 exactly when a rule matches and none of the candidates is registered on its route (and
+then `Allow` is exact), and 200 otherwise. -/
+theorem app_404_iff_no_rule (cfg : App.AppConfig) (ht : Transparent cfg) (ops : List Op)
+    (hok : ∀ op ∈ ops, OpOK op) (hs : NoSel cfg.fenv) (q : App.Req) (res : Wsgi.Result)
+    (hserve : App.serveW cfg (Router.run cfg.upper ops) q = .ok res)
+    (path : Str) (hpath : ErrorPage.utf8Decode q.rawPath = some path) :
+    (res.slots.resp.code = 404 ↔
+      specResolve cfg.fenv (Router.run cfg.upper ops).rules (stripSlash path) = none) ∧
+    (res.slots.resp.code = 405 ↔
+      ∃ rule vs route, specResolve cfg.fenv (Router.run cfg.upper ops).rules (stripSlash path) = some (rule, vs) ∧
+        (Router.run cfg.upper ops).obj? rule.data = some route ∧ dispatchSpec route (cfg.upper q.verb) = none) ∧
+    (res.slots.resp.code = 404 ∨ res.slots.resp.code = 405 ∨ res.slots.resp.code = 200) := by
+  obtain ⟨hb0, ha0, he0, hprog⟩ := ht
+  have hb : cfg.hooks.before.all (fun h => !h.fails) = true := by rw [hb0]; rfl
+  have ha : cfg.hooks.after.all (fun h => !h.fails) = true := by rw [ha0]; rfl
+  have hno : ∀ c, Wsgi.errHandlerFor cfg.hooks c = none := by
+    intro c; unfold Wsgi.errHandlerFor; rw [he0]; rfl
+  have hsplit := app_404_405_split cfg ops hok hs q res hserve path hpath hb ha
+  cases hsr : specResolve cfg.fenv (Router.run cfg.upper ops).rules (stripSlash path) with
+  | none =>
+    rw [hsr] at hsplit
+    have hc := (hsplit.2 (hno 404)).1
+    refine ⟨⟨fun _ => rfl, fun _ => hc⟩, ⟨fun h => ?_, fun ⟨_, _, _, h, _⟩ => by cases h⟩, Or.inl hc⟩
+    rw [hc] at h; cases h
+  | some x =>
+    obtain ⟨rule, vs⟩ := x
+    rw [hsr] at hsplit
+    obtain ⟨route, hobj, _, hdisp⟩ := hsplit
+    cases hd : dispatchSpec route (cfg.upper q.verb) with
+    | none =>
+      rw [hd] at hdisp
+      have hc := (hdisp.2 (hno 405)).1
+      refine ⟨⟨fun h => ?_, fun h => by cases h⟩, ⟨fun _ => ⟨rule, vs, route, rfl, hobj, hd⟩, fun _ => hc⟩,
+        Or.inr (Or.inl hc)⟩
+      rw [hc] at h; cases h
+    | some m =>
+      rw [hd] at hdisp
+      simp only at hdisp
+      -- the callback ran and returned text: the fresh response object's status stays
+      have hc : res.slots.resp.code = 200 := by
+        obtain ⟨r, hr, rfl⟩ := App.serveW_ok hserve
+        obtain ⟨_, _, _, _, _, hpok, _, _, _, hrel⟩ := App.wsgiReq_ok hr
+        have hp : r.pathOK = true := by rw [hpok, hpath]; rfl
+        have hcall := hdisp.2
+        -- `callOf` is `some`: the router answered `found`
+        generalize hrt : r.route = rt at hrel
+        generalize hrs : App.resolved cfg (Router.run cfg.upper ops) q = rs at hrel hcall
+        cases hrel with
+        | undecodable => cases hcall
+        | notFound v p => cases hcall
+        | notAllowed a h => cases hcall
+        | found h mm kw =>
+          obtain ⟨heff, t, hres⟩ := hprog h kw
+          have hflow := App.handleFlow_quiet cfg.hooks r hb ha
+          rw [hrt] at hflow
+          have : (Wsgi.Route.found (cfg.handlers h kw)).flow = .ret (.text t) := by
+            simp only [Wsgi.Route.flow, heff, Wsgi.effsFail, List.any_nil, Bool.false_eq_true, if_false, hres]
+          rw [this] at hflow
+          rw [App.wsgi_of_text cfg.hooks Wsgi.Slots.fresh r hp t hflow,
+            App.handle_plain_resp cfg.hooks Wsgi.Slots.fresh r hp hb0 ha0 _ hrt heff]
+          exact App.default_status_200
+      refine ⟨⟨fun h => ?_, fun h => by cases h⟩, ⟨fun h => ?_, fun ⟨rule', vs', route', h1, h2, h3⟩ => ?_⟩,
+        Or.inr (Or.inr hc)⟩
+      · rw [hc] at h; cases h
+      · rw [hc] at h; cases h
+      · simp only [Option.some.injEq, Prod.mk.injEq] at h1
+        obtain ⟨rfl, rfl⟩ := h1
+        rw [hobj] at h2
+        cases h2
+        rw [hd] at h3; cases h3
+
 /-! ## Non-vacuity (history `nvOps` of `Props/C01.lean`: hypotheses `nvOps_ok`, `nvEnv_noSel`) -/
 section NonVacuity
 
@@ -248,6 +433,47 @@ example : (Router.run asciiUpper nvOps).handle asciiUpper nvEnv "GET".toList "/a
 same `nvOps_ok`, `nvEnv_noSel`) -/
 example := dispatch_405_allow asciiUpper nvOps nvOps_ok nvEnv nvEnv_noSel "PUT".toList "/a/b".toList
   "GET".toList (by decide +kernel)
+
+/-! ### the composed application (`nvCfg`, `nvReq` of `Props/C01.lean`: one before hook that sets a
+header, never fails) -/
+
+def nvPlainCfg : App.AppConfig :=
+  { nvCfg with hooks := { before := [], after := [], errHandlers := [] } }
+
+theorem nvPlain_transparent : Transparent nvPlainCfg := ⟨rfl, rfl, rfl, fun _ _ => ⟨rfl, _, rfl⟩⟩
+
+/-- hypotheses of `app_404_405_split` (`nvOps_ok`, `nvEnv_noSel`, non-failing hooks, a decodable
+path inside `App.serve`'s domain) and what it says on them: `PUT /a/b` through the hooked
+application is the 405 line with `Allow: GET`, `GET /a/c` the 404 line, after the hook's header
+was dropped by `apply` -/
+example :
+    (nvCfg.hooks.before.all (fun h => !h.fails) = true ∧ nvCfg.hooks.after.all (fun h => !h.fails) = true) ∧
+    (match App.serveW nvCfg (Router.run nvCfg.upper nvOps) { nvReq with verb := "PUT".toList, rawPath := [47, 97, 47, 98] } with
+     | .ok res => res.events.take 2 == [.before 0, .routed] && res.slots.resp.code == 405 &&
+         (App.startOf res.events).any (fun x => x.1 == Wsgi.lineOfCode 405 &&
+           x.2.1.any (fun h => h.1 == "Allow".toList && h.2 == "GET".toList) &&
+           !x.2.1.any (fun h => h.1 == "X-B".toList))
+     | .error _ => false) = true ∧
+    (match App.serveW nvCfg (Router.run nvCfg.upper nvOps) { nvReq with verb := "GET".toList, rawPath := [47, 97, 47, 99] } with
+     | .ok res => res.slots.resp.code == 404
+     | .error _ => false) = true := by
+  refine ⟨⟨by decide, by decide⟩, by decide +kernel, by decide +kernel⟩
+
+/-- `app_404_iff_no_rule`: the transparent application answers 200 / 405 / 404 on the three kinds of request -/
+example :
+    ([("post", [47, 97, 47, 49, 50]), ("PUT", [47, 97, 47, 98]), ("GET", [47, 122])].map fun (v, p) =>
+      match App.serveW nvPlainCfg (Router.run nvPlainCfg.upper nvOps) { nvReq with verb := v.toList, rawPath := p } with
+      | .ok res => res.slots.resp.code
+      | .error _ => 0) = [200, 405, 404] := by decide +kernel
+
+/-- why `app_404_iff_no_rule` asks for a transparent application: a callback may answer 404 itself
+(`abort(404)`), and then the status is 404 although a rule matches — the equivalence is about what
+the ROUTER contributes, which `app_404_405_split` states for every application -/
+example :
+    (match App.serveW { nvPlainCfg with handlers := fun _ _ => { effs := [], res := .raisesResp (Wsgi.mkError 404 "gone".toList) } }
+        (Router.run nvPlainCfg.upper nvOps) { nvReq with verb := "GET".toList, rawPath := [47, 97, 47, 98] } with
+     | .ok res => res.slots.resp.code == 404 && res.events.contains .handler
+     | .error _ => false) = true := by decide +kernel
 
 end NonVacuity
 
